@@ -18,6 +18,8 @@ import (
 // Workers call Finish as usual; in shard mode Finish writes the partial result
 // to VERIF_SHARD_DIR instead of the evidence file. The parent merges.
 
+var shardRuns int
+
 type shardOut struct {
 	Violations []*Violation `json:"violations"`
 	Cov        Coverage     `json:"coverage"`
@@ -72,7 +74,14 @@ func (r *Run) finishShard(cov Coverage) {
 // in "@set" (lists of strings) are unioned and replaced by their count under
 // the key without the suffix.
 func (r *Run) RunSharded(n int, cmdArgs []string) Coverage {
-	dir := filepath.Join(Scratch(), "shards")
+	return r.RunShardedBin(os.Args[0], nil, n, cmdArgs)
+}
+
+// RunShardedBin is RunSharded with an explicit worker binary and extra
+// environment (used for build variants of the same check).
+func (r *Run) RunShardedBin(bin string, extraEnv []string, n int, cmdArgs []string) Coverage {
+	shardRuns++
+	dir := filepath.Join(Scratch(), fmt.Sprintf("shards-%d", shardRuns))
 	os.MkdirAll(dir, 0o755)
 	var wg sync.WaitGroup
 	errs := make([]error, n)
@@ -81,9 +90,10 @@ func (r *Run) RunSharded(n int, cmdArgs []string) Coverage {
 		wg.Add(1)
 		go func(i int) {
 			defer wg.Done()
-			c := exec.Command(os.Args[0], cmdArgs...)
+			c := exec.Command(bin, cmdArgs...)
 			c.Env = append(os.Environ(), fmt.Sprintf("VERIF_SHARD=%d/%d", i, n), "VERIF_SHARD_DIR="+dir,
 				"VERIF_TIER="+r.Tier, "GOMAXPROCS=2")
+			c.Env = append(c.Env, extraEnv...)
 			b, err := c.CombinedOutput()
 			outs[i], errs[i] = b, err
 		}(i)
